@@ -1,6 +1,6 @@
 use crate::app::attr::{AttrDataType, AttrItem, AttrSet, AttrWriteError};
 use crate::app::format::write::HeaderWriter;
-use crate::app::{Iin2, QualifierCode, Variation};
+use crate::app::{Iin2, QualifierCode, ResponseHeader, Variation};
 use crate::outstation::database::details::attrs::map::SetMap;
 use crate::outstation::database::read::AttrHeader;
 use scursor::WriteCursor;
@@ -133,11 +133,21 @@ impl Selection {
         while let Some(item) = self.selected.front_mut() {
             let (set, var) = item.current();
 
+            // Nothing has been written into this fragment yet: an object that does not fit
+            // now will never fit, and asking for another fragment would repeat forever
+            let fragment_is_empty = cursor.position() == ResponseHeader::LENGTH;
+
             // is it a variation list?
             if var == crate::app::attr::var::LIST_OF_ATTRIBUTE_VARIATIONS {
                 if let Some(vars) = map.variations(set) {
                     if Self::write_attr_list(set, cursor, vars).is_err() {
-                        return false;
+                        if !fragment_is_empty {
+                            return false;
+                        }
+                        tracing::error!(
+                            "list of attribute variations of set {} exceeds the transmit buffer, skipping it",
+                            set.value()
+                        );
                     }
                 }
             } else {
@@ -151,7 +161,15 @@ impl Selection {
                     }
                     if let Err(err) = res {
                         match err {
-                            AttrWriteError::Cursor => return false, // out of space
+                            AttrWriteError::Cursor => {
+                                if !fragment_is_empty {
+                                    return false; // out of space, goes into the next fragment
+                                }
+                                tracing::error!(
+                                    "attribute (set {}, variation {var}) exceeds the transmit buffer, skipping it",
+                                    set.value()
+                                );
+                            }
                             AttrWriteError::BadAttribute(err) => {
                                 tracing::error!("Unable to write attribute: {}", err);
                             }
